@@ -1,7 +1,10 @@
 import RreModel.Proto
 import RreModel.C13.Spec
 /-
-Driver for C13.  case  := `<W> <L> <ev,ev,...>`   W ∈ B<delay> | M | C | P<interval> ;  L ∈ D | A<max> | S | R
+Driver for C13.  case  := `<W> <L> <ev,ev,...>`   W ∈ B<dur> | M | C | P<interval> ;  L ∈ D | A<dur> | S | R
+                 dur   := <ms> | <secs>s<nanos> | MAX   (Duration::from_millis / Duration::new(secs, nanos), nanos < 10^9 /
+                          Duration::MAX); the model strategy carries the effective delay `C13.durMillisU64 secs nanos`
+                          (= `d.as_millis() as u64`)
                  ev    := <ts> | <ts>@<now>   (now = reading of the generator's processing-time clock when the event
                           is offered, default 0; the generator is created at reading 0)
                  obs   := step;step;...   step := wm/hist/events/side/late,dropped,allowed,sidecount
@@ -10,10 +13,28 @@ Driver for C13.  case  := `<W> <L> <ev,ev,...>`   W ∈ B<delay> | M | C | P<int
 -/
 open Proto C13
 
+/-- a configured `Duration` as (secs, nanos): `<ms>` (u64, `Duration::from_millis`), `<secs>s<nanos>` (`Duration::new`, secs a u64,
+nanos < 10^9), `MAX` (`Duration::MAX` = u64::MAX s + 999_999_999 ns) -/
+def parseDur (s : String) : Option (Nat × Nat) :=
+  if s = "MAX" then some (18446744073709551615, 999999999)
+  else match s.splitOn "s" with
+    | [ms] => do
+      let ms ← ms.toNat?
+      if ms < 18446744073709551616 then pure (ms / 1000, (ms % 1000) * 1000000) else none
+    | [a, b] => do
+      let a ← a.toNat?
+      let b ← b.toNat?
+      if a < 18446744073709551616 && b < 1000000000 then pure (a, b) else none
+    | _ => none
+
+/-- the delay the code computes from the configured duration: `d.as_millis() as u64` -/
+def parseDelay (s : String) : Option Nat :=
+  (parseDur s).map fun (a, b) => durMillisU64 a b
+
 def parseW (s : String) : Option WmStrategy :=
   if s = "M" then some .monotonic
   else if s = "C" then some .custom
-  else if s.startsWith "B" then (s.drop 1).toNat?.map .bounded
+  else if s.startsWith "B" then (parseDelay (s.drop 1).toString).map .bounded
   else if s.startsWith "P" then (s.drop 1).toNat?.map .periodic
   else none
 
@@ -31,7 +52,7 @@ def parseL (s : String) : Option LateStrategy :=
   if s = "D" then some .drop
   else if s = "S" then some .sideOutput
   else if s = "R" then some .recompute
-  else if s.startsWith "A" then (s.drop 1).toNat?.map .allowed
+  else if s.startsWith "A" then (parseDelay (s.drop 1).toString).map .allowed
   else none
 
 def parseCase (line : String) : Option (WmStrategy × LateStrategy × List Ev) :=
@@ -87,6 +108,7 @@ def oracleLine (line : String) : String :=
           ++ (if last.allowed > 0 then ["allowed"] else []) ++ (if last.sideCount > 0 then ["side"] else [])
           ++ (if last.history.length ≥ 2 then ["wm_advanced_twice"] else [])
           ++ (match w with | .periodic _ => ["periodic"] | .bounded _ => ["bounded"] | .monotonic => ["monotonic"] | .custom => ["custom"])
+          ++ (if (c.splitOn "s").length > 1 || (c.splitOn "MAX").length > 1 then ["dur_secs_nanos"] else [])
           ++ (if last.late > 0 then ["nontrivial"] else [])
         joinSp ("ok" :: tags)
       else
